@@ -22,7 +22,8 @@ RULE = ("a case is one valid joblib file (object from the C03 generator, sometim
         "protocol 2-5) x its damaged variants: every strict prefix for files <= 4 KiB (exhaustive), boundary-biased "
         "prefixes otherwise (0, 1, header, +-1 around 8192*k, last 9 bytes), zlib / gzip files built so that their length modulo 8192 is 0, 1..9, 12, 8190, 8191, loads through a raw stream delivering at most 1 / 13 / 4096 / 8191 bytes per read, and suffixes {1 byte, 4 junk bytes, 8 KiB "
         "junk, a second copy of the same stream, a different valid stream}, each damaged file also loaded from a path on disk with mmap_mode None / 'r' / 'c' / 'r+' (always for uncompressed files, a third of the others); plus Memory entries (called directly or through call_and_shelve(...).get()) whose output.pkl or metadata.json is "
-        "damaged the same ways; distinct_nontrivial counts distinct (file digest, damage) loads")
+        "damaged the same ways; distinct_nontrivial counts distinct (file digest, damage) loads"
+        " The cached function's argument is drawn from ints, dicts, sets, strings with braces / % directives / newlines, long and nested values; the Memory is verbose in two cases out of five.")
 ASSUMPTIONS = [
     "call_and_shelve(...).get() on an entry whose output.pkl is damaged may raise (a reference cannot recompute) but must not return another value; with a damaged metadata.json it must still return the value",
     "budgets per load: executed lines in joblib/{compressor,numpy_pickle,numpy_pickle_utils,numpy_pickle_compat}.py "
